@@ -56,6 +56,14 @@ CORPUS = [
     [["memoize", 1, 1, 1, 3], ["memoize", 4, 1, 1, 5], ["lookread", 1, 1], ["memoize", 4, 2, 1, None], ["lookread", 4, 1], ["lookread", 4, 2], ["lookread", 1, 1]],
     [["memoize", 6, 1, None, 2], ["lookread", 6, 1], ["lsf"], ["lsm", 6], ["ffn", 6], ["lsf"]],
     [["memoize", 5, 1, None, 2], ["memoize", 1, 1, None, 2], ["fall"], ["lookread", 5, 1], ["memoize", 1, 1, None, 2], ["lookread", 1, 1], ["lsf"]],
+    # a result object kept alive by the caller (oversize for the cache / evicted) must not outlive forget_function
+    [["hold", 44], ["memoize", 1, 1, None, 44], ["ffn", 1], ["ismem", 1, 1], ["lookread", 1, 1], ["getm", [[1, 1]]]],
+    [["hold", 4], ["memoize", 1, 1, None, 4], ["lookread", 1, 1], ["memoize", 4, 1, None, 12], ["memoize", 4, 2, None, 20], ["memoize", 4, 3, None, 28],
+     ["ffn", 1], ["ismem", 1, 1], ["lookread", 1, 1]],
+    [["hold", 47], ["memoize", 2, 1, None, 47], ["fcall", 2, 1], ["ismem", 2, 1], ["memoize", 2, 2, None, 47], ["fall"], ["ismem", 2, 2], ["lookread", 2, 2]],
+    # partitions are dictionary values like any other
+    [["memoize", 1, 1, None, 1000], ["memoize", 4, 1, None, 1000], ["lookread", 1, 1], ["fcall", 1, 1], ["lookread", 4, 1], ["memoize", 1, 1, 2, 1003],
+     ["lookread", 1, 1], ["memoize", 1, 1, None, 5], ["lookread", 1, 1], ["ffn", 4], ["lookread", 4, 1]],
 ]
 
 
@@ -68,7 +76,7 @@ def main(chk, replay=None):
     chk.rule = ("op histories (memoize +-override, get_mementos, lookup+read_result, is_memoized, forget call/function/"
                 "everything, list functions/mementos, write/read metadata, hold/drop of result objects) over 6 function "
                 "names (f#1, f#10, f#1x, another function, a named-cluster function, a version containing ':') x 3 "
-                "argument hashes x ~40 values, run on memory / fs / fs+separate metadata / fs+cache(600B, 2500B, 200kB). "
+                "argument hashes x ~40 values (+ 8 partition values in every fifth history, dictionary oracle only), run on memory / fs / fs+separate metadata / fs+cache(600B, 2500B, 200kB). "
                 "Distinct = distinct (backend config, op list); non-trivial = has >= 1 memoize and >= 1 forget or re-memoize.")
     chk.assumptions += ["write_metadata is only issued for memoized calls (how the framework uses it)",
                         "store_with_content_key metadata is outside the op language; list limits are checked against the dictionary (count = min(limit, live), subset of the live entries) but are not in the Lean op language"]
@@ -93,6 +101,8 @@ def main(chk, replay=None):
             chk.count("backend:%s%s" % (cfg["kind"], "+cache" if cfg.get("budget") else ""))
             for t in res["transcript"]:
                 chk.count("op:" + t["op"][0])
+                if t["op"][0] == "memoize" and t["op"][4] is not None and t["op"][4] >= sw.PART0:
+                    chk.count("memoize:partition")
             if res["oracle"]:
                 failures += 1
                 if failures <= 3:
@@ -106,7 +116,7 @@ def main(chk, replay=None):
         run_all(ops, "corpus")
     for i in range(nhist):
         few = rng.random() < 0.5
-        ops = sw.gen_ops(rng, rng.randint(4, maxlen), fns=[1, 2, 4] if few else None)
+        ops = sw.gen_ops(rng, rng.randint(4, maxlen), fns=[1, 2, 4] if few else None, part_rate=0.3 if i % 5 == 4 else 0.0)
         run_all(ops, "random")
         if failures > 3 or mismatches > 6:
             break
